@@ -187,6 +187,142 @@ theorem callKind_po (pj : PInfo) : pj.callKind.paramOffset = pj.po := by
 theorem toNat_ofNat_lt (n : Nat) (h : n < 2 ^ 32) : (BitVec.ofNat 32 n).toNat = n := by
   simp only [BitVec.toNat_ofNat]; omega
 
+/-- **The branch and link of a user call**, with the actuals already in the outgoing area. -/
+theorem exec_calltail {G : GCtx} (ok : G.OK) (fuel : Nat) (hcs : CallSpec G fuel) {pi : PInfo} (hpi : pi ∈ G.procs)
+    {pj : PInfo} (hpj : pj ∈ G.procs) (sp dep : Nat) (hi : Nat → Word) (hlo : G.lo ≤ sp) (hspv : sp + G.S pi + pi.po + pi.p.formals.length ≤ G.spv + 1)
+    (hstack : G.spv ≤ sp + dep * G.smax) (s : X.St) (ws : List Val) (hokv : ∀ v ∈ ws, okV v = true)
+    (lc off j : Nat) (a1 b1 : Word) (mem1 : Mem)
+    (hat2 : At G.env.ds j (lowerCode G.cg (callTail pj.callKind lc)))
+    (rep1s : Rep (KOf G pi sp dep hi) s mem1)
+    (hvals : ∀ k (hk : k < ws.length), mem1.read (sp + pj.po + k) = wordOf G.abase ws[k])
+    (hroom : pj.po + ws.length ≤ G.S pi) (hq : pi.p.locals.length + pj.po ≤ G.S pi) (hoff : pj.po + off ≤ G.S pi) :
+    match X.callUser fuel G.xc pj.p ws s with
+    | .ok res s' => ∃ a' b' mem', Steps G.env (cfg j a1 b1 mem1) s.io
+          (cfg (j + (lowerCode G.cg (callTail pj.callKind lc)).length) a' b' mem') s'.io ∧
+        Rep (KOf G pi sp dep hi) s' mem' ∧ (pj.p.isFunc = true → ∀ w, res = some w → a' = w) ∧
+        FrmC (KOf G pi sp dep hi) off (G.S pi) mem1 mem'
+    | .exit cd s' => ∃ c, Steps G.env (cfg j a1 b1 mem1) s.io c s'.io ∧ Exit G.env c s'.io cd
+    | .undef _ => True := by
+  have wf := ok.wfs pi hpi sp dep hi hlo hspv
+  have hfrm : ∀ (q : Nat) (mem1 mem2 : Mem), q + off ≤ G.S pi → (∀ x, sp + q ≤ x → ¬ G.inArr x → mem2.read x = mem1.read x) →
+      FrmC (KOf G pi sp dep hi) off (G.S pi) mem1 mem2 := by
+    intro q mem1 mem2 hq hk a hsp hna hne
+    have hsp' : sp ≤ a := hsp
+    by_cases ha : sp + q ≤ a
+    · exact hk a ha hna
+    · exfalso
+      apply hne (G.S pi - 1 - (a - sp)) (by omega) (by omega)
+      show a = sp + G.S pi - 1 - (G.S pi - 1 - (a - sp))
+      omega
+  have grep := Rep.toG ok hpi rep1s
+  have hdep : s.depth = dep := rep1s.depth
+  have hpo := po_pos pj
+  -- the branch and link
+  have hproL := (ok.at_pro pj hpj).head
+  have lPro := labelIdx_of_nodup _ _ _ _ ok.nodup hproL
+  cases hf : pj.p.isFunc with
+  | true =>
+    have hk : pj.callKind = .func pj.p.name := by unfold PInfo.callKind; rw [hf]; rfl
+    have hpo2 : pj.po = 2 := by unfold PInfo.po; rw [hf]; rfl
+    rw [hk] at hat2 ⊢
+    have htail : lowerCode G.cg (callTail (.func pj.p.name) lc)
+        = [.ref 0x5 (lab lc) true, .ref 0x9 pj.p.name true, .label .plain (lab lc),
+           .imm 0x0 1, .imm 0x6 1] := rfl
+    rw [htail] at hat2 ⊢
+    have t0 := hat2.get 0 _ rfl
+    have t1 := hat2.get 1 _ rfl
+    have t2 := hat2.get 2 _ rfl
+    have t3 := hat2.get 3 _ rfl
+    have t4 := hat2.get 4 _ rfl
+    simp only [Nat.add_zero] at t0
+    have lLnk := labelIdx_of_nodup _ _ _ _ ok.nodup t2
+    have haddr := ok.addr_lt _ _ _ t2
+    have sLdap := Step.ldapL (env := G.env) (cfg (j) a1 b1 mem1) s.io _ _ t0 lLnk
+    have sBr := Step.br (env := G.env)
+      (cfg (j + 1) (BitVec.ofNat 32 (G.env.addr (j + 2))) b1 mem1)
+      s.io _ _ t1 lPro
+    have hspec := hcs pj hpj ws s (BitVec.ofNat 32 (G.env.addr (j + 2))) b1 mem1 sp
+      (j + 2) .plain _ grep rep1s.sp hokv
+      (fun j hj => by have := hvals j hj; rw [Nat.add_assoc] at this ⊢; exact this)
+      (by rw [hdep]; exact hstack) (by omega) hlo t2 (toNat_ofNat_lt _ haddr).symm
+    cases hx : X.callUser fuel G.xc pj.p ws s with
+    | undef w => trivial
+    | exit cd s' =>
+      rw [hx] at hspec
+      obtain ⟨c, hs, he⟩ := hspec
+      exact ⟨c, Steps.step _ _ _ _ _ _ sLdap (Steps.step _ _ _ _ _ _ sBr hs), he⟩
+    | ok res s' =>
+      rw [hx] at hspec
+      obtain ⟨a2, b2, mem2, hs, grep2, h21, hkeep, hres, _⟩ := hspec
+      obtain ⟨hl', hd'⟩ := callUser_frame _ _ _ _ _ _ _ hx
+      have rep2 := rep_return ok hpi sp dep hi hlo hspv rep1s grep2 hl' hd' h21 2
+        (fun x hx hna => hkeep x (by omega) (by omega) hna) (by omega)
+      have sLab := Step.label (env := G.env) (cfg (j + 2) a2 b2 mem2) s'.io _ _ t2
+      have sLdam := Step.ldam (env := G.env) (cfg (j + 2 + 1) a2 b2 mem2) s'.io 1 _ t3 (ld_one mem2)
+      have hs1lt : sp + 1 < memWords := by have := ok.top; unfold memWords at *; omega
+      have l3 : Isa.ld mem2 (mem2.read 1 + IAm.W 1) = some (mem2.read (sp + 1)) := by
+        rw [h21, W_one]
+        have := ofNat_add_W sp 1
+        rw [show IAm.W ((1 : Nat) : Int) = 1 from W_one] at this
+        rw [this, ld_ofNat _ _ hs1lt]
+      have sLdai := Step.ldai (env := G.env) (cfg (j + 2 + 1 + 1) (mem2.read 1) b2 mem2) s'.io 1 _ t4 l3
+      refine ⟨mem2.read (sp + 1), b2, mem2, ?_, rep2, fun _ w hw => hres w hw,
+        hfrm 2 mem1 mem2 (by omega) (fun x hx hna => hkeep x (by omega) (by omega) hna)⟩
+      have : j + [Dir.ref 0x5 (lab lc) true, .ref 0x9 pj.p.name true,
+          .label .plain (lab lc), .imm 0x0 1, .imm 0x6 1].length
+          = j + 2 + 1 + 1 + 1 := by simp
+      rw [this]
+      exact Steps.step _ _ _ _ _ _ sLdap (Steps.step _ _ _ _ _ _ sBr (hs.trans
+        (Steps.step _ _ _ _ _ _ sLab (Steps.step _ _ _ _ _ _ sLdam (Steps.one sLdai)))))
+  | false =>
+    have hk : pj.callKind = .proc pj.p.name := by unfold PInfo.callKind; rw [hf]; rfl
+    have hpo1 : pj.po = 1 := by unfold PInfo.po; rw [hf]; rfl
+    rw [hk] at hat2 ⊢
+    have htail : lowerCode G.cg (callTail (.proc pj.p.name) lc)
+        = [.ref 0x5 (lab lc) true, .ref 0x9 pj.p.name true, .label .plain (lab lc)] := rfl
+    rw [htail] at hat2 ⊢
+    have t0 := hat2.get 0 _ rfl
+    have t1 := hat2.get 1 _ rfl
+    have t2 := hat2.get 2 _ rfl
+    simp only [Nat.add_zero] at t0
+    have lLnk := labelIdx_of_nodup _ _ _ _ ok.nodup t2
+    have haddr := ok.addr_lt _ _ _ t2
+    have sLdap := Step.ldapL (env := G.env) (cfg (j) a1 b1 mem1) s.io _ _ t0 lLnk
+    have sBr := Step.br (env := G.env)
+      (cfg (j + 1) (BitVec.ofNat 32 (G.env.addr (j + 2))) b1 mem1)
+      s.io _ _ t1 lPro
+    have hspec := hcs pj hpj ws s (BitVec.ofNat 32 (G.env.addr (j + 2))) b1 mem1 sp
+      (j + 2) .plain _ grep rep1s.sp hokv
+      (fun j hj => by have := hvals j hj; rw [Nat.add_assoc] at this ⊢; exact this)
+      (by rw [hdep]; exact hstack) (by omega) hlo t2 (toNat_ofNat_lt _ haddr).symm
+    cases hx : X.callUser fuel G.xc pj.p ws s with
+    | undef w => trivial
+    | exit cd s' =>
+      rw [hx] at hspec
+      obtain ⟨c, hs, he⟩ := hspec
+      exact ⟨c, Steps.step _ _ _ _ _ _ sLdap (Steps.step _ _ _ _ _ _ sBr hs), he⟩
+    | ok res s' =>
+      rw [hx] at hspec
+      obtain ⟨a2, b2, mem2, hs, grep2, h21, hkeep, _, hsame⟩ := hspec
+      obtain ⟨hl', hd'⟩ := callUser_frame _ _ _ _ _ _ _ hx
+      have rep2 := rep_return ok hpi sp dep hi hlo hspv rep1s grep2 hl' hd' h21 1
+        (fun x hx hna => by
+          by_cases h1 : x = sp + 1
+          · subst h1; exact hsame hf
+          · exact hkeep x (by omega) h1 hna) (by omega)
+      have sLab := Step.label (env := G.env) (cfg (j + 2) a2 b2 mem2) s'.io _ _ t2
+      refine ⟨a2, b2, mem2, ?_, rep2, fun h => by simp at h,
+        hfrm 1 mem1 mem2 (by omega) (fun x hx hna => by
+          by_cases h1 : x = sp + 1
+          · subst h1; exact hsame hf
+          · exact hkeep x (by omega) h1 hna)⟩
+      have : j + [Dir.ref 0x5 (lab lc) true, .ref 0x9 pj.p.name true,
+          .label .plain (lab lc)].length
+          = j + 2 + 1 := by simp
+      rw [this]
+      exact Steps.step _ _ _ _ _ _ sLdap (Steps.step _ _ _ _ _ _ sBr (hs.trans (Steps.one sLab)))
+
+
 /-- **A user call with call-free actuals**, as a statement or as the whole right-hand side: the
     code of `genFuncCall` / `genProcCall`, given the specification of callees. -/
 theorem exec_usercall {G : GCtx} (ok : G.OK) (fuel : Nat) (hcs : CallSpec G fuel) {pi : PInfo} (hpi : pi ∈ G.procs)
@@ -247,113 +383,22 @@ theorem exec_usercall {G : GCtx} (ok : G.OK) (fuel : Nat) (hcs : CallSpec G fuel
   have hdep : s.depth = dep := rep1s.depth
   -- the branch and link
   have hat2 : At G.env.ds (i + (lowerCode G.cg c2).length) (lowerCode G.cg (callTail pj.callKind gs2.labelCount)) := hat.right
-  have hproL := (ok.at_pro pj hpj).head
-  have lPro := labelIdx_of_nodup _ _ _ _ ok.nodup hproL
   have hio : s.io = st.io := hs2.2.2.2.1
-  cases hf : pj.p.isFunc with
-  | true =>
-    have hk : pj.callKind = .func pj.p.name := by unfold PInfo.callKind; rw [hf]; rfl
-    have hpo2 : pj.po = 2 := by unfold PInfo.po; rw [hf]; rfl
-    rw [hk] at hat2 ⊢
-    have htail : lowerCode G.cg (callTail (.func pj.p.name) gs2.labelCount)
-        = [.ref 0x5 (lab gs2.labelCount) true, .ref 0x9 pj.p.name true, .label .plain (lab gs2.labelCount),
-           .imm 0x0 1, .imm 0x6 1] := rfl
-    rw [htail] at hat2 ⊢
-    have t0 := hat2.get 0 _ rfl
-    have t1 := hat2.get 1 _ rfl
-    have t2 := hat2.get 2 _ rfl
-    have t3 := hat2.get 3 _ rfl
-    have t4 := hat2.get 4 _ rfl
-    simp only [Nat.add_zero] at t0
-    have lLnk := labelIdx_of_nodup _ _ _ _ ok.nodup t2
-    have haddr := ok.addr_lt _ _ _ t2
-    have sLdap := Step.ldapL (env := G.env) (cfg (i + (lowerCode G.cg c2).length) a1 b1 mem1) st.io _ _ t0 lLnk
-    have sBr := Step.br (env := G.env)
-      (cfg (i + (lowerCode G.cg c2).length + 1) (BitVec.ofNat 32 (G.env.addr (i + (lowerCode G.cg c2).length + 2))) b1 mem1)
-      st.io _ _ t1 lPro
-    have hspec := hcs pj hpj ws s (BitVec.ofNat 32 (G.env.addr (i + (lowerCode G.cg c2).length + 2))) b1 mem1 sp
-      (i + (lowerCode G.cg c2).length + 2) .plain _ grep rep1s.sp hokv
-      (fun j hj => by have := hvals j hj; rw [Nat.add_assoc] at this ⊢; exact this)
-      (by rw [hdep]; exact hstack) (by omega) hlo t2 (toNat_ofNat_lt _ haddr).symm
-    cases hx : X.callUser fuel G.xc pj.p ws s with
-    | undef w => trivial
-    | exit cd s' =>
-      rw [hx] at hspec
-      obtain ⟨c, hs, he⟩ := hspec
-      rw [hio] at hs
-      exact ⟨c, st1.trans (Steps.step _ _ _ _ _ _ sLdap (Steps.step _ _ _ _ _ _ sBr hs)), he⟩
-    | ok res s' =>
-      rw [hx] at hspec
-      obtain ⟨a2, b2, mem2, hs, grep2, h21, hkeep, hres, _⟩ := hspec
-      rw [hio] at hs
-      obtain ⟨hl', hd'⟩ := callUser_frame _ _ _ _ _ _ _ hx
-      have rep2 := rep_return ok hpi sp dep hi hlo hspv rep1s grep2 hl' hd' h21 2
-        (fun x hx hna => hkeep x (by omega) (by omega) hna) (by omega)
-      have sLab := Step.label (env := G.env) (cfg (i + (lowerCode G.cg c2).length + 2) a2 b2 mem2) s'.io _ _ t2
-      have sLdam := Step.ldam (env := G.env) (cfg (i + (lowerCode G.cg c2).length + 2 + 1) a2 b2 mem2) s'.io 1 _ t3 (ld_one mem2)
-      have hs1lt : sp + 1 < memWords := by have := ok.top; unfold memWords at *; omega
-      have l3 : Isa.ld mem2 (mem2.read 1 + IAm.W 1) = some (mem2.read (sp + 1)) := by
-        rw [h21, W_one]
-        have := ofNat_add_W sp 1
-        rw [show IAm.W ((1 : Nat) : Int) = 1 from W_one] at this
-        rw [this, ld_ofNat _ _ hs1lt]
-      have sLdai := Step.ldai (env := G.env) (cfg (i + (lowerCode G.cg c2).length + 2 + 1 + 1) (mem2.read 1) b2 mem2) s'.io 1 _ t4 l3
-      refine ⟨mem2.read (sp + 1), b2, mem2, ?_, rep2, fun _ w hw => hres w hw,
-        frm1.trans (hfrm 2 mem1 mem2 (by omega) (fun x hx hna => hkeep x (by omega) (by omega) hna))⟩
-      have : i + ((lowerCode G.cg c2).length + [Dir.ref 0x5 (lab gs2.labelCount) true, .ref 0x9 pj.p.name true,
-          .label .plain (lab gs2.labelCount), .imm 0x0 1, .imm 0x6 1].length)
-          = i + (lowerCode G.cg c2).length + 2 + 1 + 1 + 1 := by simp; omega
-      rw [List.length_append, this]
-      exact st1.trans (Steps.step _ _ _ _ _ _ sLdap (Steps.step _ _ _ _ _ _ sBr (hs.trans
-        (Steps.step _ _ _ _ _ _ sLab (Steps.step _ _ _ _ _ _ sLdam (Steps.one sLdai))))))
-  | false =>
-    have hk : pj.callKind = .proc pj.p.name := by unfold PInfo.callKind; rw [hf]; rfl
-    have hpo1 : pj.po = 1 := by unfold PInfo.po; rw [hf]; rfl
-    rw [hk] at hat2 ⊢
-    have htail : lowerCode G.cg (callTail (.proc pj.p.name) gs2.labelCount)
-        = [.ref 0x5 (lab gs2.labelCount) true, .ref 0x9 pj.p.name true, .label .plain (lab gs2.labelCount)] := rfl
-    rw [htail] at hat2 ⊢
-    have t0 := hat2.get 0 _ rfl
-    have t1 := hat2.get 1 _ rfl
-    have t2 := hat2.get 2 _ rfl
-    simp only [Nat.add_zero] at t0
-    have lLnk := labelIdx_of_nodup _ _ _ _ ok.nodup t2
-    have haddr := ok.addr_lt _ _ _ t2
-    have sLdap := Step.ldapL (env := G.env) (cfg (i + (lowerCode G.cg c2).length) a1 b1 mem1) st.io _ _ t0 lLnk
-    have sBr := Step.br (env := G.env)
-      (cfg (i + (lowerCode G.cg c2).length + 1) (BitVec.ofNat 32 (G.env.addr (i + (lowerCode G.cg c2).length + 2))) b1 mem1)
-      st.io _ _ t1 lPro
-    have hspec := hcs pj hpj ws s (BitVec.ofNat 32 (G.env.addr (i + (lowerCode G.cg c2).length + 2))) b1 mem1 sp
-      (i + (lowerCode G.cg c2).length + 2) .plain _ grep rep1s.sp hokv
-      (fun j hj => by have := hvals j hj; rw [Nat.add_assoc] at this ⊢; exact this)
-      (by rw [hdep]; exact hstack) (by omega) hlo t2 (toNat_ofNat_lt _ haddr).symm
-    cases hx : X.callUser fuel G.xc pj.p ws s with
-    | undef w => trivial
-    | exit cd s' =>
-      rw [hx] at hspec
-      obtain ⟨c, hs, he⟩ := hspec
-      rw [hio] at hs
-      exact ⟨c, st1.trans (Steps.step _ _ _ _ _ _ sLdap (Steps.step _ _ _ _ _ _ sBr hs)), he⟩
-    | ok res s' =>
-      rw [hx] at hspec
-      obtain ⟨a2, b2, mem2, hs, grep2, h21, hkeep, _, hsame⟩ := hspec
-      rw [hio] at hs
-      obtain ⟨hl', hd'⟩ := callUser_frame _ _ _ _ _ _ _ hx
-      have rep2 := rep_return ok hpi sp dep hi hlo hspv rep1s grep2 hl' hd' h21 1
-        (fun x hx hna => by
-          by_cases h1 : x = sp + 1
-          · subst h1; exact hsame hf
-          · exact hkeep x (by omega) h1 hna) (by omega)
-      have sLab := Step.label (env := G.env) (cfg (i + (lowerCode G.cg c2).length + 2) a2 b2 mem2) s'.io _ _ t2
-      refine ⟨a2, b2, mem2, ?_, rep2, fun h => by simp at h,
-        frm1.trans (hfrm 1 mem1 mem2 (by omega) (fun x hx hna => by
-          by_cases h1 : x = sp + 1
-          · subst h1; exact hsame hf
-          · exact hkeep x (by omega) h1 hna))⟩
-      have : i + ((lowerCode G.cg c2).length + [Dir.ref 0x5 (lab gs2.labelCount) true, .ref 0x9 pj.p.name true,
-          .label .plain (lab gs2.labelCount)].length)
-          = i + (lowerCode G.cg c2).length + 2 + 1 := by simp; omega
-      rw [List.length_append, this]
-      exact st1.trans (Steps.step _ _ _ _ _ _ sLdap (Steps.step _ _ _ _ _ _ sBr (hs.trans (Steps.one sLab))))
+  have hct := exec_calltail ok fuel hcs hpi hpj sp dep hi hlo hspv hstack s ws hokv gs2.labelCount gs.offset
+    (i + (lowerCode G.cg c2).length) a1 b1 mem1 hat2 rep1s (fun k hk => hvals k hk) (by omega) (by omega) (by omega)
+  cases hx : X.callUser fuel G.xc pj.p ws s with
+  | undef w => trivial
+  | exit cd s' =>
+    rw [hx] at hct
+    obtain ⟨c, hs, he⟩ := hct
+    rw [hio] at hs
+    exact ⟨c, st1.trans hs, he⟩
+  | ok res s' =>
+    rw [hx] at hct
+    obtain ⟨a', b', mem', hs, rep', hres, frm2⟩ := hct
+    rw [hio] at hs
+    refine ⟨a', b', mem', ?_, rep', hres, frm1.trans frm2⟩
+    rw [List.length_append, ← Nat.add_assoc]
+    exact st1.trans hs
 
 end Hex.C01s
